@@ -19,7 +19,7 @@ PROP = "C08"
 def _ov(ctx):
     from rl_blox.blox import replay_buffer as rb
     sym = not getattr(ctx, "is_replay", False)
-    return overlay(rb, np=NpShim(), jnp=JnpShim()) if sym else contextlib.nullcontext()
+    return overlay(rb, np=NpShim(), jnp=JnpShim())
 
 
 def _arr(ctx, xs):
